@@ -46,9 +46,11 @@ def _is_nontrivial(h):
 from common import MachineryFailure
 
 
-def _validate(ck, traces, label, alias=False):
+def _validate_collect(ck, traces, label, alias=False):
+    """Run TLC trace validation; return the verdict records (thread-safe: no shared state is touched besides ck.tlc)."""
+    out = []
     if not traces:
-        return
+        return out
     tcfg = "Trace_C12_alias" if alias else "Trace_C12"
     if alias:
         open(ck.spec + "/Trace_C12_alias.cfg", "w").write(open(ck.spec + "/Trace_C12.cfg").read().replace("Alias = FALSE", "Alias = TRUE"))
@@ -61,14 +63,24 @@ def _validate(ck, traces, label, alias=False):
         expect = 1 + sum(len(t["ev"]) + 1 for t in part)
         if res.distinct != expect:
             raise MachineryFailure(f"trace validation consumed {res.distinct} states, expected {expect}")
+        out.append((part, res.by_tag("T-FAIL"), res.by_tag("P-FAIL"), alias))
+    return out
+
+
+def _apply_verdicts(ck, collected):
+    for part, tfails, pfails, alias in collected:
         ck.validated(len(part))
-        for r in res.by_tag("T-FAIL"):
+        for r in tfails:
             t = part[r["tid"] - 1]
             ck.drift_step(r["op"], {"history": [_short(e) for e in t["ev"][: r["l"]]], "model": r["model"], "observed": r["observed"]})
-        for r in res.by_tag("P-FAIL"):
+        for r in pfails:
             t = part[r["tid"] - 1]
             key = {"clause": r["clause"], "edit": r["edit"], "kind": r["kind"], "layer": r["layer"], "spelling": r.get("spelling", ""), "route": r.get("via", "")}
             ck.violation(key, {"probe": r["probe"], "observed": r["observed"], "expected": r["expected"], "via": r.get("via", "Unit()"), "history": [_short(e) for e in t["ev"]]}, case={"h": [_strip(e) for e in t["ev"]], "alias": alias})
+
+
+def _validate(ck, traces, label, alias=False):
+    _apply_verdicts(ck, _validate_collect(ck, traces, label, alias))
 
 
 def _strip(e):
@@ -96,20 +108,39 @@ def run(ck):
         _validate(ck, traces, "replay", alias=bool(blob["case"].get("alias", False)))
         return
 
+    import concurrent.futures as cf
+
     model_classes = set()
     nontrivial = set()
     ck.cov["simulated_histories"] = 0
     ck.cov["bound"] = {}
-    for alias in (False, True):
+    maxlen = 4
+    n_sim = ck.q(150, 4000)
+    depth = ck.q(10, 14)
+
+    # ---- phase 1: the four generating TLC runs (cover + simulation, both alphabets) run concurrently ----
+    def gen(kind, alias):
         tag = "alias" if alias else "user"
         A = "Alias = TRUE" if alias else "Alias = FALSE"
-        # quick: one witness history per distinct state (state cover); thorough: one per explored transition
-        maxlen = 4
-        src = ck.q("MC_C12_cover", "MC_C12_states")
-        cfg = open(ck.spec + f"/{src}.cfg").read().replace("MaxLen = 5", f"MaxLen = {maxlen}").replace("Alias = FALSE", A)
-        open(ck.spec + f"/MC_C12_run_{tag}.cfg", "w").write(cfg)
-        res = ck.tlc("MC_C12", f"MC_C12_run_{tag}", workers=1, label=f"[{tag}] state space MaxLen={maxlen} (VIEW hides history), {ck.q('state','transition')} cover export", required_actions=["Next"], timeout=3000)
-        hists = [r for r in res.by_tag("HIST")]
+        if kind == "cover":
+            # quick: one witness history per distinct state (state cover); thorough: one per explored transition
+            src = ck.q("MC_C12_cover", "MC_C12_states")
+            cfg = open(ck.spec + f"/{src}.cfg").read().replace("MaxLen = 5", f"MaxLen = {maxlen}").replace("Alias = FALSE", A)
+            open(ck.spec + f"/MC_C12_run_{tag}.cfg", "w").write(cfg)
+            return ck.tlc("MC_C12", f"MC_C12_run_{tag}", workers=1, label=f"[{tag}] state space MaxLen={maxlen} (VIEW hides history), {ck.q('state','transition')} cover export", required_actions=["Next"], timeout=3000)
+        cfg = open(ck.spec + "/MC_C12_hist.cfg").read().replace("MaxLen = 3", f"MaxLen = {depth + 5}").replace("ExportLen = 3", f"ExportLen = {depth}").replace("Alias = FALSE", A)
+        open(ck.spec + f"/MC_C12_sim_{tag}.cfg", "w").write(cfg)
+        return ck.tlc("MC_C12", f"MC_C12_sim_{tag}", workers=1, simulate=n_sim, depth=depth + 1, label=f"[{tag}] simulation depth={depth}", timeout=1800)
+
+    jobs = [(k, a) for a in (False, True) for k in ("cover", "sim")]
+    with cf.ThreadPoolExecutor(4) as ex:
+        results = dict(zip(jobs, ex.map(lambda j: gen(*j), jobs)))
+
+    # ---- phase 2: one replay batch for all histories ----
+    batches = []  # (label, alias, cases)
+    for alias in (False, True):
+        tag = "alias" if alias else "user"
+        hists = [r for r in results[("cover", alias)].by_tag("HIST")]
         if len(hists) < 100:
             raise MachineryFailure("too few histories exported")
         for r in hists:
@@ -118,22 +149,10 @@ def run(ck):
         ck.cov["bound"][tag] = {"MaxLen": maxlen, "histories": len(hists)}
         cases = [{"h": r["h"], "alias": alias} for r in hists]
         ck.sample({"alphabet": tag, "history": cases[len(cases) // 2]["h"]})
-        nontrivial |= {(alias, str(c["h"])) for c in cases if _is_nontrivial(c["h"])}
-        traces = ck.pmap("impl_c12", "observe", cases)
-        bad = [t for t in traces if "_error" in t]
-        if bad:
-            raise MachineryFailure("replay error: " + str(bad[0]))
-        _validate(ck, traces, f"cover-{tag}", alias)
-
-        # beyond the bound: random longer histories generated by TLC's simulator
-        n_sim = ck.q(150, 4000)
-        depth = ck.q(10, 14)
-        cfg = open(ck.spec + "/MC_C12_hist.cfg").read().replace("MaxLen = 3", f"MaxLen = {depth + 5}").replace("ExportLen = 3", f"ExportLen = {depth}").replace("Alias = FALSE", A)
-        open(ck.spec + f"/MC_C12_sim_{tag}.cfg", "w").write(cfg)
-        res = ck.tlc("MC_C12", f"MC_C12_sim_{tag}", workers=1, simulate=n_sim, depth=depth + 1, label=f"[{tag}] simulation depth={depth}", timeout=1800)
-        sims = [{"h": r["h"], "alias": alias} for r in res.by_tag("HIST")]
-        # TLC's simulator evaluates the exporting invariant on every successor of the last state
+        batches.append((f"cover-{tag}", alias, cases))
+        # beyond the bound: TLC's simulator evaluates the exporting invariant on every successor of the last state
         # it visits, so behaviours come in families sharing a prefix: keep a seeded sample of each
+        sims = [{"h": r["h"], "alias": alias} for r in results[("sim", alias)].by_tag("HIST")]
         rnd = random.Random(ck.seed)
         fam = {}
         for c in sims:
@@ -141,10 +160,25 @@ def run(ck):
         sims = [c for k in sorted(fam) for c in rnd.sample(fam[k], min(3, len(fam[k])))]
         if sims:
             ck.sample({"alphabet": tag, "simulated_history": sims[0]["h"]})
-            nontrivial |= {(alias, str(c["h"])) for c in sims if _is_nontrivial(c["h"])}
-            traces = ck.pmap("impl_c12", "observe", sims)
-            _validate(ck, traces, f"sim-{tag}", alias)
+            batches.append((f"sim-{tag}", alias, sims))
         ck.cov["simulated_histories"] += len(sims)
+    allcases = [c for _, _, cs in batches for c in cs]
+    nontrivial |= {(c["alias"], str(c["h"])) for c in allcases if _is_nontrivial(c["h"])}
+    alltraces = ck.pmap("impl_c12", "observe", allcases)
+    bad = [t for t in alltraces if "_error" in t]
+    if bad:
+        raise MachineryFailure("replay error: " + str(bad[0]))
+
+    # ---- phase 3: trace validation of the batches, concurrently; verdicts are processed in batch order ----
+    off = 0
+    work = []
+    for label, alias, cs in batches:
+        work.append((label, alias, alltraces[off : off + len(cs)]))
+        off += len(cs)
+    with cf.ThreadPoolExecutor(4) as ex:
+        outs = list(ex.map(lambda w: _validate_collect(ck, w[2], w[0], w[1]), work))
+    for o in outs:
+        _apply_verdicts(ck, o)
     ck.cov["model_level_stale_classes"] = sorted(list(x) for x in model_classes)
     ck.cov["exhaustive"] = True
     ck.cov["evaluations"] = ck.cov["traces_validated_against_impl"]
